@@ -110,6 +110,25 @@ def _m2f():
     return cfg
 
 
+def _m2b():
+    """Several admin events of DIFFERENT kinds in one /events notification:
+    a server is created and frozen before the master handles either event
+    (the handlers must run in the order the events were issued)."""
+    cfg = mastercfg.m2()
+    cfg['cellmonitors'] = [cellmon.mon_c03]
+    cfg['monitors'] = [mastermon.mon_c03_zk]
+    cfg['servers']['s1']['initial'] = False
+    cfg['allow_late'] = True
+    cfg['allow_nocycle'] = False
+    cfg['late_kinds'] = ('srv+', 'state', 'srv')
+    cfg['events'] = mastercfg.ev(
+        ('app+', 't1'), ('srv+', 's1', 0),
+        ('state', 's1', 'frozen', -1), ('state', 's1', 'up', -1),
+        ('srv', 's0', 2), ('noop',),
+    )
+    return cfg
+
+
 def _late():
     """Late presence notifications: a server registers and dies again before
     the master handles the first notification."""
@@ -132,11 +151,13 @@ def configs(ctx):
                 ('M2', _m2(), 3, 0, _masterprop.MasterSpec),
                 ('M2t', _m2t(), 3, 0, _masterprop.MasterSpec),
                 ('M2f', _m2f(), 5, 0, _masterprop.MasterSpec),
+                ('M2b', _m2b(), 4, 2, _masterprop.MasterSpec),
                 ('M2-late', _late(), 4, 2, _masterprop.MasterSpec)]
     return [('K2', _k2(), 6, 1), ('K5', _k5(), 7, 0),
             ('M2', _m2(), 5, 1, _masterprop.MasterSpec),
             ('M2t', _m2t(), 5, 1, _masterprop.MasterSpec),
             ('M2f', _m2f(), 7, 1, _masterprop.MasterSpec),
+            ('M2b', _m2b(), 6, 3, _masterprop.MasterSpec),
             ('M2-late', _late(), 6, 2, _masterprop.MasterSpec)]
 
 
